@@ -612,5 +612,7 @@ func replaySeq(c *fw.Ctx, k kase) {
 		r.seqPure(keys, true)
 	case "dirty":
 		r.dirtyDestination(keys, true)
+	case "sweep":
+		r.keySweep(keys, buildHonest(keys, false))
 	}
 }
